@@ -40,7 +40,7 @@ def _alpha(seed):
 
 
 KP = [("-", None)] + [(k, p) for k in M.TODO_KINDS for p in (None, "P0", "P9")]
-IDENTS = ["none", "zid", "mzid", "long"]
+IDENTS = ["none", "zid", "mzid", "long", "zid-late-year", "mzid-late-year"]
 TAILS = ["single", "cont", "bullet", "bullet_lookalike"]
 
 
@@ -65,6 +65,11 @@ def _mk_item(seed, kind, prio, ident, widx, tail):
         item.ident = ("zid", zids[1])
     elif ident == "long":
         item.ident = ("long", "2023-11-05")
+    elif ident == "zid-late-year":
+        item.ident = ("zid", "691231#D4")  # two-digit years always mean 20YY
+    elif ident == "mzid-late-year":
+        item.mdate = "990101"
+        item.ident = ("zid", "851224#E5")
     if tail == "cont":
         item.cont = [("  ", [M.W(plain[1]), M.W("o"), M.W("P5")])]
     elif tail == "bullet":
@@ -233,7 +238,7 @@ def run(ctx: F.Ctx):
     meta = {
         "rule": (
             "single-item pages: kind/priority in 16 combinations x identity in {none, ZID, "
-            "modify-date+ZID, long create date} x body of 1..N words over 10 words (2 plain + "
+            "modify-date+ZID, long create date, ZID and modify date with year parts 69-99} x body of 1..N words over 10 words (2 plain + "
             "o, x, P5, date-like, time-like, ZID-like, long-date-like, '-') x tail in {single, "
             "continuation line, bullets, bullets starting with look-alikes} (quick: 2-word bodies "
             "with tails {single, look-alike bullets} only), minus first words "
